@@ -717,8 +717,12 @@ def denial(ctx, rng):
     """WebsocketDenialResponse / request_response on a websocket scope"""
     from baize import asgi
     from vf import drivers
+    import os
+    fpath = os.path.join(ctx.tmpdir("denial"), "denied.txt")
+    with open(fpath, "wb") as f:
+        f.write(b"denied " * 40)
     for ext in (False, True):
-        for kind in ("resp404", "text", "shortcut"):
+        for kind in ("resp404", "text", "shortcut", "file", "file+zerocopy", "stream"):
             sent = []
 
             async def send(m):
@@ -730,15 +734,44 @@ def denial(ctx, rng):
             scope = {"type": "websocket", "headers": [], "path": "/", "query_string": b""}
             if ext:
                 scope["extensions"] = {"websocket.http.response": {}}
-            if kind == "shortcut":
+            if kind == "file+zerocopy":
+                scope.setdefault("extensions", {})["http.response.zerocopysend"] = {}  # an extension of the HTTP protocol the server also offers
+            if kind.startswith("file"):
+                scope["method"] = "GET"  # (the handshake's method, which a file response looks at; not a key of the websocket scope proper)
+                app = asgi.WebsocketDenialResponse(asgi.FileResponse(fpath))
+            elif kind == "stream":
+                async def chunks():
+                    yield b"de"
+                    yield b"nied"
+                app = asgi.WebsocketDenialResponse(asgi.StreamResponse(chunks()))
+            elif kind == "shortcut":
                 async def view(request):
                     return asgi.PlainTextResponse("no")
                 app = asgi.request_response(view)
             else:
                 app = asgi.WebsocketDenialResponse(asgi.Response(404) if kind == "resp404" else asgi.PlainTextResponse("denied", 403))
-            k, v = step(app(scope, receive, send))
+            if kind.startswith("file") or kind == "stream":
+                # bodies that need an event loop (thread pool for the file, an async generator)
+                import asyncio
+
+                async def receive():  # noqa: F811
+                    await asyncio.Event().wait()
+                try:
+                    k, v = "ret", drivers.loop().run_until_complete(asyncio.wait_for(app(scope, receive, send), 20))
+                except BaseException as e:  # noqa
+                    k, v = "raise", e
+            else:
+                k, v = step(app(scope, receive, send))
             ctx.mon("denial-response")
             case = {"extension": ext, "kind": kind}
+            bad = [m.get("type") for m in sent if m.get("type") not in ("websocket.close", "websocket.http.response.start", "websocket.http.response.body")]
+            if bad:
+                ctx.violation("denial|event-that-is-not-in-the-websocket-protocol-forwarded", case, repr(bad))
+                continue
+            if kind in ("file+zerocopy", "stream", "file") and k == "raise" and isinstance(v, (ValueError, NotImplementedError)):
+                ctx.count("denial-body-kind-refused-with-an-error(nothing illegal forwarded)")
+                ctx.case(("denial", ext, kind))
+                continue
             if k != "ret":
                 ctx.violation(f"denial|did-not-return|{k}", case, repr(v))
                 continue
